@@ -1,6 +1,6 @@
 // pure.go: translates a whitelist of small pure Go functions of the repository into Gallina
 // (coq/gen/Pure.v, module P), over the combinators of coq/Base/GoSem.v.  The theorems of
-// coq/Helpers/PureTie.v state that each regenerated definition equals the hand-written model.
+// coq/Helpers/PureTie_*.v state that each regenerated definition equals the hand-written model.
 //
 // Supported subset (everything else is REFUSED: the function is replaced by
 // `Definition <name>_unrecognised : GoSem.unrecognised := ...`, so that its tie theorem no longer compiles):
@@ -18,6 +18,7 @@
 //	expr      x | literal int | true | false | nil (error result) | package constant / []byte variable / errors.New variable
 //	          | len(e) | e[i] | e[lo:hi] | e[:hi] | e[lo:] | e[:] | make([]byte, n) | []byte(stringConstant)
 //	          | bytes.Equal(a, b) | check.IfNil(interfaceParameter) | F(args) with F in the whitelist
+//	          | append(a, b...) on []byte (VALUE of the result only) | big.NewInt(k).SetUint64(e).Bytes()
 //	          | S{} | S{f: e, ...} | v.f | p.f (p *S) | !e | e && e | e || e (right operand evaluated conditionally)
 //	          | e == e | != | < | <= | > | >= | e + e | - | * | e & e | e | e (unsigned)
 //
@@ -170,6 +171,8 @@ var pureWhitelist = []whiteEntry{
 	{"builtInFunctions", "changeOwnerAddress.go", "", "computeGasRemaining"},
 	// phase 2
 	{"builtInFunctions", "esdtTransfer.go", "", "mustVerifyPayable"},
+	{"builtInFunctions", "esdtNFTCreate.go", "", "computeESDTNFTTokenKey"},
+	{"builtInFunctions", "esdtNFTCreate.go", "", "getNonceKey"},
 }
 
 func (w whiteEntry) key() string {
@@ -788,10 +791,39 @@ func (t *tr) builtin(x *ast.CallExpr) string {
 		return ""
 	}
 	switch id.Name {
-	case "len", "make":
+	case "len", "make", "append":
 		return id.Name
 	}
 	return ""
+}
+
+// bigUint64Bytes: the one use of math/big that is translated, big.NewInt(<literal>).SetUint64(e).Bytes()
+// (SetUint64 overwrites the value given to NewInt).  Returns e, or nil if x is not of this shape.
+func (t *tr) bigUint64Bytes(x *ast.CallExpr) ast.Expr {
+	s1, ok := x.Fun.(*ast.SelectorExpr)
+	if !ok || s1.Sel.Name != "Bytes" || len(x.Args) != 0 {
+		return nil
+	}
+	c2, ok := s1.X.(*ast.CallExpr)
+	if !ok || len(c2.Args) != 1 || c2.Ellipsis != token.NoPos {
+		return nil
+	}
+	s2, ok := c2.Fun.(*ast.SelectorExpr)
+	if !ok || s2.Sel.Name != "SetUint64" {
+		return nil
+	}
+	c3, ok := s2.X.(*ast.CallExpr)
+	if !ok || len(c3.Args) != 1 || c3.Ellipsis != token.NoPos {
+		return nil
+	}
+	s3, ok := c3.Fun.(*ast.SelectorExpr)
+	if !ok || s3.Sel.Name != "NewInt" || t.pkgOf(s3.X) != "math/big" {
+		return nil
+	}
+	if lit, ok := c3.Args[0].(*ast.BasicLit); !ok || lit.Kind != token.INT {
+		return nil
+	}
+	return c2.Args[0]
 }
 
 func isByteSliceType(e ast.Expr) bool {
@@ -859,7 +891,10 @@ func (t *tr) typeOf(e ast.Expr) gtype {
 		switch t.builtin(x) {
 		case "len":
 			return gtype{k: kInt}
-		case "make":
+		case "make", "append":
+			return gtype{k: kBytes}
+		}
+		if t.bigUint64Bytes(x) != nil {
 			return gtype{k: kBytes}
 		}
 		if se, ok := x.Fun.(*ast.SelectorExpr); ok {
@@ -1114,8 +1149,20 @@ func (t *tr) constAt(e ast.Expr, oty gtype, term string, ty gtype) string {
 }
 
 func (t *tr) emitCall(x *ast.CallExpr, ty gtype) string {
+	if t.builtin(x) == "append" {
+		// append(a, b...) on byte slices: the VALUE of the result only (see go_append in Base/GoSem.v)
+		if len(x.Args) != 2 || x.Ellipsis == token.NoPos {
+			t.refuse(x, "append: only append(a, b...) with two []byte operands")
+		}
+		a := t.expr(x.Args[0], gtype{k: kBytes})
+		b := t.expr(x.Args[1], gtype{k: kBytes})
+		return fmt.Sprintf("(go_append %s %s)", a, b)
+	}
 	if x.Ellipsis != token.NoPos {
 		t.refuse(x, "variadic call")
+	}
+	if e := t.bigUint64Bytes(x); e != nil {
+		return "(go_big_uint64_bytes " + t.expr(e, gtype{k: kU64}) + ")"
 	}
 	if isByteSliceType(x.Fun) && len(x.Args) == 1 {
 		at := t.typeOf(x.Args[0])
@@ -1850,7 +1897,7 @@ func genPure(repo, outDir string) {
 	o := &outFile{}
 	o.p("(* GENERATED by tools/srcgen (pure.go) from /repo's current sources on every check run. Do not edit.")
 	o.p("   One Gallina definition per whitelisted Go function, over the combinators of Base/GoSem.v;")
-	o.p("   `None` = run-time panic.  Helpers/PureTie.v ties each definition to the hand-written model. *)")
+	o.p("   `None` = run-time panic.  Helpers/PureTie_*.v ties each definition to the hand-written model. *)")
 	o.p("From Coq.Strings Require Import String.")
 	o.p("From EV Require Import Base.Bytes gen.Consts Base.GoSem.")
 	o.p("Import GoNotations.")
